@@ -7,7 +7,8 @@
    with SM4Spec).  A src shorter than 16 bytes panics (index out of range in permuteInitialBlock).
 
    Go objects modelled:
-     var IV []byte (package level)  -> record pkg, read by the helpers when they are called
+     var IV []byte (package level)  -> record pkg, read by the helpers when they are called (since 0fa6cb9
+                                       through currentIV(), under ivMu.RLock; SetIV stores under ivMu.Lock: same values)
      []byte values                  -> list N
      out := make([]byte, n); copy(out[i*16:i*16+16], x)   -> the slots are appended in order
                                        ([slot16 x] = what a zeroed 16-byte window holds after copy)
@@ -96,7 +97,7 @@ Section Cipher.
 
   (* ---------- func Sm4Cbc(key []byte, in []byte, mode bool) (out []byte, err error) ---------------------- *)
   Definition Sm4Cbc_core (p : pkg) (key inData : list byte) (mode : bool) : outcome (list byte) :=
-    let iv := firstn 16 (IV p ++ zeros16) in                 (* iv := make([]byte, 16); copy(iv, IV) *)
+    let iv := firstn 16 (IV p ++ zeros16) in                 (* iv := make([]byte, 16); copy(iv, currentIV()) *)
     let enc := E key in let dec := D key in                  (* c, err := NewCipher(key) *)
     let n := length inData / 16 in
     if mode then
@@ -132,7 +133,7 @@ Section Cipher.
     let n := length inData / 16 in
     if mode then
       do out <- for_loop (fun i cipherBlock =>
-                  (* i == 0: c.Encrypt(K, IV); otherwise c.Encrypt(K, cipherBlock) *)
+                  (* i == 0: c.Encrypt(K, currentIV()); otherwise c.Encrypt(K, cipherBlock) *)
                   do K <- block_call enc (if Nat.eqb i 0 then IV p else cipherBlock);
                   let cipherBlock := xor (firstn 16 K) (blk inData i) in
                   Ok (cipherBlock, cipherBlock)) n 0 zeros16 [];
